@@ -94,11 +94,39 @@ def iter_states(path, start=0, end=None):
             pos += len(line)
 
 
+BYSTANDER_EVERY = int(os.environ.get('VERIF_BYSTANDER_EVERY', '250'))
+
+
+def with_bystanders(states):
+    """interleave the replayed cases with calls on unrelated grader objects (engine/bystanders.py): whatever those
+    leave behind in process-wide or class-wide state must not change how the next case is graded"""
+    if BYSTANDER_EVERY <= 0:
+        for st in states:
+            yield st
+        return
+    stress = None
+    for k, st in enumerate(states):
+        if k % BYSTANDER_EVERY == 0:
+            if stress is None:
+                try:
+                    from engine import repo, bystanders
+                    repo.activate()
+                    stress = bystanders.stress
+                except Exception:  # noqa -- the library cannot even be imported: the adapter will report that
+                    stress = False
+            if stress:
+                try:
+                    stress()
+                except Exception:  # noqa
+                    pass
+        yield st
+
+
 def _worker(args):
     path, start, end, fn_mod, fn_name, extra = args
     import importlib
     fn = getattr(importlib.import_module(fn_mod), fn_name)
-    return fn(iter_states(path, start, end), extra)
+    return fn(with_bystanders(iter_states(path, start, end)), extra)
 
 
 def parallel(path, fn_mod, fn_name, extra=None, procs=16, chunks_per_proc=4):
